@@ -76,7 +76,7 @@ def run(ctx):
             r.check('short-write:advance-by-written', body[0] == WR and inc in body and body[-1] == '} next-iteration' and
                     not [e for e in body if e.startswith('$m0') and e != inc], site, built=body, expected=[WR, '...', inc, '} next-iteration'],
                     why='pos must advance by exactly the count the transport accepted, once per write')
-            muts = [e for e in body if e.startswith((SOB, OB)) or 'outbuf' in e.split('(')[0]]
+            muts = [e for e in body if not e.startswith('let $s') and (e.startswith((SOB, OB)) or 'outbuf' in e.split('(')[0])]  # `let $sN = ..` is a read kept for later
             r.check('short-write:buffer-untouched', not [e for e in muts if not e.startswith(WR)], site, built=muts, why='the buffer must not change while a prefix is being written')
             wbody = wb[0].effects[wb[0].effects.index('loop {') + 1:]
             r.check('would-block:drain-written-prefix', wbody[-1] == SOB + 'drain_written(self.outbuf, $m0)' and wb[0].value_str() == 'Ok(())' and wb[0].done == 'return', site, built=wbody,
